@@ -2,13 +2,16 @@
 # usage: tools/mutcheck.sh <patch.diff|-R:commit> <ID> [tier]
 # applies a patch to /repo's working tree, runs the check, and always reverts.
 P="$1"; ID="$2"; TIER="${3:-quick}"
-cd /repo || exit 9
+# VERIF_REPO (development only): a scratch checkout to patch and check instead of /repo;
+# VERIF_ROOT: a snapshot of /verif to run the check from.
+R="${VERIF_REPO:-/repo}"
+cd "$R" || exit 9
 if [ -n "$(git status --porcelain --untracked-files=no)" ]; then echo "repo dirty"; exit 9; fi
 case "$P" in
  -R:*) git show "${P#-R:}" | git apply -R || { echo "reverse apply failed"; exit 9; } ;;
  *) git apply "$P" 2>/dev/null || patch -p1 -s --no-backup-if-mismatch < "$P" || { git checkout -- .; echo "apply failed"; exit 9; } ;;
 esac
 cd ${VERIF_ROOT:-/verif} && ./check "$ID" --tier "$TIER"; rc=$?
-cd /repo && git checkout -- . && git status --porcelain --untracked-files=all | grep -v '^??' ; 
+cd "$R" && git checkout -- . && git status --porcelain --untracked-files=all | grep -v '^??' ; 
 echo "mutcheck rc=$rc"
 exit $rc
